@@ -249,11 +249,12 @@ struct FireCase {
   int kind[C06_MAX_CH] = {0, 0, 0};
   int period[C06_MAX_CH] = {0, 0, 0};
   int tid_of[C06_MAX_CH] = {0, 0, 0};  // timers: 0 own cookie, k+1 = identifier equals the descriptor number of channel k
+  int on_pvt = 0;  // registrations on the pool's virtual thread
   std::vector<Cmd> cmds;
   Bytes plan;
   std::string ser() const {
     Writer w;
-    w.iv("kind", {kind[0], kind[1], kind[2]}).iv("period", {period[0], period[1], period[2]}).iv("tid_of", {tid_of[0], tid_of[1], tid_of[2]}).i("ncmds", (long long)cmds.size());
+    w.i("on_pvt", on_pvt).iv("kind", {kind[0], kind[1], kind[2]}).iv("period", {period[0], period[1], period[2]}).iv("tid_of", {tid_of[0], tid_of[1], tid_of[2]}).i("ncmds", (long long)cmds.size());
     for (size_t i = 0; i < cmds.size(); i++) w.iv(("c" + std::to_string(i)).c_str(), {cmds[i].cmd, cmds[i].ch, cmds[i].outside, cmds[i].flags, cmds[i].arg});
     w.b("plan", plan);
     return w.str();
@@ -271,6 +272,7 @@ struct FireCase {
       c.cmds.push_back(Cmd{(int)v[0], (int)v[1], (int)v[2], (int)v[3], (int)v[4]});
     }
     c.plan = r.b("plan");
+    c.on_pvt = (int)r.i("on_pvt");
     return c;
   }
 };
@@ -295,6 +297,7 @@ static Verdict run_fire(const FireCase &c) {
   memset(&k, 0, sizeof k);
   for (int i = 0; i < C06_MAX_CH; i++) { k.kind[i] = (uint8_t)c.kind[i]; k.period_ms[i] = (uint16_t)std::max(1, c.period[i]); k.timer_ident_of[i] = (uint8_t)c.tid_of[i]; }
   k.ncmds = (uint8_t)std::min<size_t>(c.cmds.size(), C06_MAX_CMDS);
+  k.on_pvt = (uint8_t)(c.on_pvt != 0);
   k.plans.plan_len = (uint32_t)std::min<size_t>(c.plan.size(), TP_PLAN_MAX);
   memcpy(k.plans.plan, c.plan.data(), k.plans.plan_len);
   // model run 1: decide which callbacks the harness should wait for, and the expectation per step and channel
@@ -434,6 +437,7 @@ static Verdict run_fire(const FireCase &c) {
     for (int j = 0; j < C06_MAX_CH; j++) used += c.kind[j] != 0;
     if (used >= 2) nt = true;
     for (int j = 0; j < C06_MAX_CH; j++) if (c.kind[j] == 3 && c.tid_of[j]) label("timer_named_after_a_descriptor");
+    if (c.on_pvt) label("registered_on_the_virtual_thread");
     PBT_REQUIRE(o.res.live_fds == o.base_live_fds, "descriptors left after deleting every registration and destroying the pool: " << o.res.live_fds << " (before: " << o.base_live_fds << ")");
     if (nt) nontrivial_cur();
     return Verdict::pass();
@@ -455,6 +459,20 @@ static rc::Gen<FireCase> genFire() {
       for (int j = 0; j < nch; j++) if (j != i && c.kind[j] != 3 && c.kind[j] != 0) { c.tid_of[i] = j + 1; break; }
     }
     int n = *range<int>(2, 14);
+    if (*range<int>(0, 3) == 0) {
+      // template "guarded connection": a socket / pipe registration plus a timer named after its descriptor number; the timer reports first,
+      // then the history goes on with the descriptor's registration (whose kernel state the timer's clean-up must not have touched)
+      nch = std::max(nch, 2);
+      c.kind[0] = *rc::gen::weightedElement<int>({{4, 1}, {2, 2}, {1, 4}});
+      c.kind[1] = 3; c.period[1] = *range<int>(1, 4); c.tid_of[1] = 1; c.tid_of[0] = 0;
+      if (c.tid_of[2] == 2) c.tid_of[2] = 0;
+      Cmd a; a.cmd = E_ADD; a.ch = 0; a.outside = 0; a.flags = *rc::gen::element(0, 0, (int)F_DISPATCH); a.arg = 1;
+      Cmd t; t.cmd = E_ADD; t.ch = 1; t.outside = *rc::gen::weightedElement<int>({{3, 0}, {1, 1}}); t.flags = *rc::gen::element((int)F_ONESHOT, (int)F_ONESHOT, (int)F_DISPATCH, 0); t.arg = 1;
+      Cmd z; z.cmd = E_SLEEP; z.ch = 0; z.outside = 0; z.flags = 0; z.arg = 2 * c.period[1] + 3;
+      if (*range<int>(0, 1)) { c.cmds.push_back(a); c.cmds.push_back(t); } else { c.cmds.push_back(t); c.cmds.push_back(a); }
+      c.cmds.push_back(z);
+      n = *range<int>(2, 8);
+    }
     for (int i = 0; i < n; i++) {
       Cmd cm;
       cm.ch = *range<int>(0, nch - 1);
@@ -468,6 +486,7 @@ static rc::Gen<FireCase> genFire() {
       c.cmds.push_back(cm);
     }
     c.plan = *bytes_upto(12);
+    c.on_pvt = *rc::gen::weightedElement<int>({{3, 0}, {1, 1}});
     return c;
   });
 }
